@@ -1,0 +1,26 @@
+//go:build !verif
+
+// Package verifhook holds the seams used by the deterministic simulator in
+// /verif.  Without build tag "verif" every function is a no-op, so shipped
+// behaviour is unchanged.
+package verifhook
+
+import (
+	"net/http"
+	"time"
+
+	expect "github.com/tailscale/goexpect"
+)
+
+// SpawnConsole lets a simulator replace the ssh child process.
+func SpawnConsole(cmd []string, timeout time.Duration) (*expect.GExpect, bool, error) {
+	return nil, false, nil
+}
+
+// HTTPClient lets a simulator replace the HTTPS transport.
+func HTTPClient(timeout, loginTimeout time.Duration, ip string) (*http.Client, string) {
+	return nil, ""
+}
+
+// Point marks a scheduling / crash point.
+func Point(name string) {}
